@@ -65,14 +65,18 @@ structure WsSt where
   textbuf : List (Str × Bool) := []      -- (data, is Markup)
   deriving Repr
 
+/-- what the filter does to a merged text run: trimmed and collapsed unless inside preserved space -/
+def stdNorm (preserved : Bool) (text : Str) : Str := if preserved then text else wsNorm text
+
 /-- the pending text as one Markup TEXT event (nothing when the buffer is empty):
-    every non-Markup piece is escaped (quotes untouched), the pieces are joined,
-    and outside preserved space the result is trimmed and collapsed -/
-def wsFlush (st : WsSt) : List QEv :=
+    every non-Markup piece is escaped (quotes untouched), the pieces are joined, and the result goes
+    through `norm` (the real filter: `stdNorm`; the parameter exists so that theorems can compare
+    with the filter that only merges) -/
+def wsFlushG (norm : Bool → Str → Str) (st : WsSt) : List QEv :=
   if st.textbuf.isEmpty then []
   else
     let text := st.textbuf.flatMap fun p => if p.2 then p.1 else escapePy false p.1
-    [.text (if st.preserve == 0 then wsNorm text else text) true]
+    [.text (norm (st.preserve != 0) text) true]
 
 /-- the state changes of the non-TEXT branch -/
 def wsUpdate (cfg : WsCfg) (st : WsSt) : QEv → WsSt
@@ -86,12 +90,16 @@ def wsUpdate (cfg : WsCfg) (st : WsSt) : QEv → WsSt
   | .endCdata => { st with inCdata := false }
   | _ => st
 
-/-- `WhitespaceFilter.__call__`; the end of the list is the `(None, None, None)` sentinel -/
-def wsFilter (cfg : WsCfg) : WsSt → List QEv → List QEv
-  | st, [] => wsFlush st
+/-- `WhitespaceFilter.__call__` with the text normalisation as a parameter; the end of the list is
+    the `(None, None, None)` sentinel -/
+def wsFilterG (norm : Bool → Str → Str) (cfg : WsCfg) : WsSt → List QEv → List QEv
+  | st, [] => wsFlushG norm st
   | st, .text s safe :: rest =>
-      wsFilter cfg { st with textbuf := st.textbuf ++ [(s, safe || st.noescape || st.inCdata)] } rest
+      wsFilterG norm cfg { st with textbuf := st.textbuf ++ [(s, safe || st.noescape || st.inCdata)] } rest
   | st, ev :: rest =>
-      wsFlush st ++ ev :: wsFilter cfg (wsUpdate cfg { st with textbuf := [] } ev) rest
+      wsFlushG norm st ++ ev :: wsFilterG norm cfg (wsUpdate cfg { st with textbuf := [] } ev) rest
+
+/-- `WhitespaceFilter.__call__` -/
+def wsFilter (cfg : WsCfg) (st : WsSt) (es : List QEv) : List QEv := wsFilterG stdNorm cfg st es
 
 end Genshi.Output
